@@ -3,6 +3,7 @@
 package age
 
 import (
+	"bufio"
 	"bytes"
 	"errors"
 	"io"
@@ -859,4 +860,100 @@ func argBytes(name string, n int) []byte {
 		V.Assume(printableNoSpace[c])
 	}
 	return b
+}
+
+// ---------------------------------------------------------------------------
+// C12: independence of the delivery schedule through the whole format
+
+// sched is an io.Reader delivering data in pieces of at most piece bytes
+// (0 = as much as asked), optionally returning the last piece together with
+// io.EOF.
+type sched struct {
+	data        []byte
+	off         int
+	piece       int
+	eofWithData bool
+}
+
+func (s *sched) Read(p []byte) (int, error) {
+	if s.off >= len(s.data) {
+		return 0, io.EOF
+	}
+	n := len(p)
+	if s.piece > 0 && n > s.piece {
+		n = s.piece
+	}
+	if n > len(s.data)-s.off {
+		n = len(s.data) - s.off
+	}
+	copy(p, s.data[s.off:s.off+n])
+	s.off += n
+	if s.eofWithData && s.off == len(s.data) {
+		return n, io.EOF
+	}
+	return n, nil
+}
+
+func decryptAll(src io.Reader, id Identity) (out []byte, class int) {
+	r, err := Decrypt(src, id)
+	if err != nil {
+		return nil, 1 // refused at the header / nonce
+	}
+	out, err = io.ReadAll(r)
+	if err != nil {
+		return out, 2 // payload error
+	}
+	return out, 0
+}
+
+// Harness_C12_decrypt_schedule: a valid file, and the same file with one byte
+// replaced at an arbitrary position of the payload, truncated at an arbitrary
+// point, or extended by one byte, decrypts to the same bytes with the same
+// outcome class whatever the delivery schedule of the source (all at once, one
+// byte at a time, pieces of 3 or 7 bytes, with or without data-with-EOF,
+// through a bufio.Reader or not).
+func Harness_C12_decrypt_schedule() {
+	V.InstallTape()
+	idA := symIdentity("skA")
+	P := V.Bytes("P", payloadLen())
+	var buf bytes.Buffer
+	w, err := Encrypt(&buf, idA.Recipient())
+	V.Assert(err == nil, "Encrypt failed")
+	if err != nil {
+		return
+	}
+	hl := buf.Len() - 16
+	w.Write(P)
+	w.Close()
+	file := buf.Bytes()
+	switch V.Int("damage", 0, 3) {
+	case 1: // one payload byte replaced
+		pos := hl + V.Int("dpos", 0, len(file)-hl-1)
+		c := V.Byte("c")
+		V.Assume(c != file[pos])
+		file = append([]byte(nil), file...)
+		file[pos] = c
+	case 2: // truncated inside the payload (crash of the writer)
+		file = file[:hl+V.Int("cut", 0, len(file)-hl-1)]
+	case 3: // one trailing byte
+		file = append(append([]byte(nil), file...), V.Byte("extra"))
+	}
+	want, wantClass := decryptAll(bytes.NewReader(file), idA)
+	src := &sched{data: file, eofWithData: V.Bool("eofWithData")}
+	switch V.Int("piece", 0, 3) {
+	case 1:
+		src.piece = 1
+	case 2:
+		src.piece = 3
+	case 3:
+		src.piece = 7
+	}
+	var in io.Reader = src
+	if V.Bool("bufio") {
+		in = bufio.NewReaderSize(src, 16)
+	}
+	got, gotClass := decryptAll(in, idA)
+	V.Reach("compared")
+	V.Assert(gotClass == wantClass, "outcome depends on the delivery schedule of the source")
+	V.Assert(bytes.Equal(got, want), "released plaintext depends on the delivery schedule of the source")
 }
